@@ -411,6 +411,15 @@ func mvToGV(v MV) *GV {
 	return gvNil()
 }
 
+func miniData(data map[string]MV) *GV {
+	gd := gvMap()
+	for _, k := range sortedKeys(data) {
+		gd.Keys = append(gd.Keys, k)
+		gd.Elems = append(gd.Elems, mvToGV(data[k]))
+	}
+	return gd
+}
+
 func miniCase(family string, prog []*MS, data map[string]MV) *Case {
 	var sb strings.Builder
 	printStmts(prog, &sb)
